@@ -73,6 +73,10 @@ def mk_candles(stream, base, a, b, form="candle"):
             out.append({"open": o, "high": h, "low": l, "close": c, "volume": v, "timestamp": t})
         elif form == "dict_cap":     # capitalised keys, as data frames export them
             out.append({"Open": o, "High": h, "Low": l, "Close": c, "Volume": v, "Timestamp": t})
+        elif form == "dict_mix":     # a data-frame row (capitalised prices) with the stamp added by the caller
+            out.append({"Open": o, "High": h, "Low": l, "Close": c, "Volume": v, "timestamp": t})
+        elif form == "dict_mix2":    # ... or the other way round: every field is looked up on its own
+            out.append({"open": o, "high": h, "low": l, "close": c, "Volume": v, "Timestamp": t})
         elif form == "dict_iso":     # timestamps as ISO strings without offset (JSON input)
             out.append({"open": o, "high": h, "low": l, "close": c, "volume": v,
                         "timestamp": t.isoformat() if t is not None else None})
